@@ -3,7 +3,6 @@ Implement YAML document Differ.
 
 Copyright 2020, 2021 William W. Kimball, Jr. MBA MSIS
 """
-from itertools import zip_longest
 from typing import Any, Dict, Generator, List, Optional, Tuple, Union
 
 from ruamel.yaml.comments import CommentedMap, CommentedSeq, CommentedSet
@@ -393,33 +392,37 @@ class Differ:
             self._diff_synced_lists(path, lhs, rhs)
             return
 
-        idx = 0
         diff_deeply = kwargs.pop("diff_deeply", True)
-        for (lele, rele) in zip_longest(lhs, rhs):
-            next_path = path + "[{}]".format(idx)
-            idx += 1
-            if lele is None:
+        lhs_len = len(lhs)
+        rhs_len = len(rhs)
+        for pos in range(max(lhs_len, rhs_len)):
+            next_path = path + "[{}]".format(pos)
+            idx = pos + 1
+            if pos >= lhs_len:
                 self._diffs.append(
                     DiffEntry(
-                        DiffActions.ADD, next_path, None, rele,
+                        DiffActions.ADD, next_path, None, rhs[pos],
                         lhs_parent=lhs, lhs_iteration=idx,
                         rhs_parent=rhs, rhs_iteration=idx))
-            elif rele is None:
+            elif pos >= rhs_len:
                 self._diffs.append(
                     DiffEntry(
-                        DiffActions.DELETE, next_path, lele, None,
+                        DiffActions.DELETE, next_path, lhs[pos], None,
                         lhs_parent=lhs, lhs_iteration=idx,
                         rhs_parent=rhs, rhs_iteration=idx))
             elif diff_deeply:
                 self._diff_between(
-                    next_path, lele, rele,
+                    next_path, lhs[pos], rhs[pos],
                     lhs_parent=lhs, lhs_iteration=idx,
                     rhs_parent=rhs, rhs_iteration=idx,
                     parentref=idx)
-            elif lele != rele:
+            else:
+                diff_action = (DiffActions.SAME
+                               if lhs[pos] == rhs[pos]
+                               else DiffActions.CHANGE)
                 self._diffs.append(
                     DiffEntry(
-                        DiffActions.CHANGE, next_path, lele, rele,
+                        diff_action, next_path, lhs[pos], rhs[pos],
                         lhs_parent=lhs, lhs_iteration=idx,
                         rhs_parent=rhs, rhs_iteration=idx,
                         parentref=idx))
